@@ -233,7 +233,7 @@ def generated(seed, count):
 
 
 def _mk(kind, part, parts, tier):
-    n_total = 160 if tier == "quick" else 1600
+    n_total = 64 if tier == "quick" else 1600
     options = {"optimize": True} if kind == "optimize" else {}
     props = {"scalar": ["C01", "C03", "C05"], "optimize": ["C02", "C14"], "grouping": ["C08"]}[kind]
 
@@ -249,7 +249,8 @@ def _mk(kind, part, parts, tier):
             if i % parts != part:
                 continue
             sub = _Sub(R)
-            from pyvc import sym
+            from pyvc import sym, solver
+            solver.CROSS_CHECK_MS = 1500          # sampled programs: the cvc5 cross-check of the thorough tier gets a short leash (nonlinear VCs)
             old_budget = sym.PATH_BUDGET_S
             sym.EXPLORE_DEADLINE = time.time() + PROGRAM_BUDGET_S
             sym.PATH_BUDGET_S = min(old_budget, PROGRAM_BUDGET_S)
@@ -259,6 +260,7 @@ def _mk(kind, part, parts, tier):
                 skipped += 1
                 continue
             finally:
+                solver.CROSS_CHECK_MS = None
                 sym.EXPLORE_DEADLINE = None
                 sym.PATH_BUDGET_S = old_budget
             ran += 1
